@@ -27,7 +27,7 @@ theorem operand_name_rt (n rest : Bytes) :
     name_rt n (32 :: rest) (by intro b r h; simp at h; obtain ⟨rfl, _⟩ := h; decide)
   simp only [writeObj, pOperand, operandObj]
   simp only [writeName, List.cons_append] at hn ⊢
-  simp [NULL_KW, TRUE_KW, FALSE_KW, tag, pReal, pInteger, spanP, isDigit, digit1, hn]
+  simp [NULL_KW, TRUE_KW, FALSE_KW, tag, pReal, optSign, pInteger, spanP, isDigit, digit1, hn]
 
 /-- hexadecimal-string operands: `<` is rejected by every earlier alternative (incl. `name`,
 `literal_string`) -/
@@ -36,7 +36,7 @@ theorem operand_hex_rt (s rest : Bytes) :
   have hs := hexstr_rt s (32 :: rest)
   simp only [writeObj, pOperand, operandObj]
   simp only [writeString, List.cons_append, List.nil_append, List.append_assoc] at hs ⊢
-  simp [NULL_KW, TRUE_KW, FALSE_KW, tag, pReal, pInteger, spanP, isDigit, digit1, pName, pLiteral, hs]
+  simp [NULL_KW, TRUE_KW, FALSE_KW, tag, pReal, optSign, pInteger, spanP, isDigit, digit1, pName, pLiteral, hs]
 
 /-- operators: any non-empty string over letters, `*`, `'`, `"` followed by a byte outside
 that alphabet (or nothing) is read back whole -/
